@@ -304,8 +304,8 @@ def _sql(selectable) -> str:
 
 def campaigns(ctx):
     return [
-        Campaign('hints', case_strategy(False), check_hints, 650, 5000),
-        Campaign('clean', case_strategy(True), check_hints, 650, 5000),
+        Campaign('hints', case_strategy(False), check_hints, 550, 4000),
+        Campaign('clean', case_strategy(True), check_hints, 550, 4000),
     ]
 
 
@@ -339,6 +339,20 @@ def directed_cases() -> list:
         # ON-factor of an inner join (safe) + one-sided disjunction in the where-condition
         A.query(A.join(A.table('C'), A.table('B'), 'inner', A.and_(cmp('ge', col('B', 'y'), lit(0.0)), eq_cb)),
                 [col('C', 'id'), col('B', 'a')], where=A.or_(cmp('gt', col('B', 'a'), lit(2)), cmp('gt', col('C', 'z'), col('B', 'a')))),
+    ]
+    # one table scanned in two operands of a set operation under *different* where-factors: the table's segment collects
+    # both and only their disjunction is safe
+    stmts += [
+        A.setop(
+            A.query(A.table('A'), [col('A', 'id')], where=cmp('gt', col('A', 'x'), lit(1))),
+            A.query(A.table('A'), [col('A', 'id')], where=cmp('lt', col('A', 'x'), lit(1))),
+            'union',
+        ),
+        A.setop(
+            A.query(A.table('B'), [col('B', 'a')], where=cmp('ge', col('B', 'y'), lit(1.0))),
+            A.query(A.table('B'), [col('B', 'a')], where=cmp('lt', col('B', 'y'), lit(1.0))),
+            'union',
+        ),
     ]
     return [{'stmt': s, 'data': _DATA} for s in stmts]
 
